@@ -354,6 +354,17 @@ pub fn run(run: &Run) {
             Ok(())
         },
     );
+    // joiners typed by the user are part of the typed word: consonant + ra + the ZWJ key + hasanta + ya (the way to write
+    // ra + ya-phala by hand), also with ZWNJ, under all 16 option sets - a completion has to begin with what was typed
+    let mut jitems: Vec<Case> = vec![];
+    for first in "\u{0995}\u{0996}\u{0997}\u{099A}\u{099C}\u{09A4}\u{09A6}\u{09A8}\u{09AA}\u{09AC}\u{09AE}\u{09B8}\u{09B9}\u{09B6}".chars() {
+        for mid in ["\u{09B0}\u{200D}\u{09CD}\u{09AF}", "\u{09B0}\u{200C}\u{09CD}\u{09AF}", "\u{200D}\u{09B0}\u{09CD}\u{09AF}", "\u{09B0}\u{09CD}\u{200D}\u{09AF}"] {
+            for optidx in 0..N_OPT {
+                jitems.push(Case { optidx, lead: String::new(), word: format!("{first}{mid}\u{09BE}"), trail: String::new(), retype: vec![], burst: vec![] });
+            }
+        }
+    }
+    run.exhaustive("joiners-typed-by-hand-inside-the-word", &jitems, |_| mk_local(), |c, st, lo| checked(c, lo, st));
     run.exhaustive("erase-and-continue-behind-a-wrapper", &eitems, |_| mk_local(), |c, st, lo| checked(c, lo, st));
     run.require_label("with-backspace-burst", 1000);
     run.require_label("word-needs-a-number-pad-key", 1);
